@@ -19,12 +19,12 @@ def queries(tier, seed, build):
     qs = []
     q = Query("c02-descrypt-structure", "ref_struct.c", units=["util-xstrcpy.c", "util-base64.c", "crypt-des.c"],
               models=["libc.c", "des_uf.c"], defs=["R_DESCRYPT", "METHOD_FN=crypt_descrypt_rn", "MAX_P=10"], unwind=20,
-              loops=[("^harness$", None, 50, False)] + lib_loops(20), timeout=900)
+              loops=[("^harness$", None, 95, False)] + lib_loops(20), timeout=900)
     q.loops_optional = True; q.str_bound = 20
     qs.append(q)
     q = Query("c02-nt-structure", "ref_struct.c", units=["util-xstrcpy.c", "util-base64.c", "crypt-nthash.c"],
               models=["libc.c", "digest_uf.c"], defs=["R_NT", "M_MD4", "METHOD_FN=crypt_nt_rn", "MAX_P=6"], unwind=20,
-              loops=[("^harness$", None, 50, False), ("^absorb$", None, 10, False), ("^emit$", None, 10, False)] + lib_loops(40), timeout=900)
+              loops=[("^harness$", None, 95, False), ("^absorb$", None, 10, False), ("^emit$", None, 10, False)] + lib_loops(40), timeout=900)
     q.loops_optional = True; q.str_bound = 40
     qs.append(q)
     # stretching methods: concrete lengths per query, stretch loop cut after K iterations in
